@@ -169,6 +169,7 @@ func specCmdShape(req *Request) bool {
 //@   ints bv
 //@   assumed returns the request's token to the limiter (channel send)
 //@   modifies req.Working
+//@   ensures !req.Working
 
 //@ func (s *Stats) Stats
 //@   props C11 C12
@@ -202,4 +203,5 @@ func specCmdShape(req *Request) bool {
 //@   ensures err == nil && !c.closeAfterReply ==> streamFlushed(c.wbuf) == streamLen(c.wbuf)
 //@   ensures err == nil && !c.closeAfterReply ==> streamLen(c.wbuf) > old(streamLen(c.wbuf)) || ghostNoReply[c.req]
 //@   ensures !c.req.NoReply && c.req.Item == nil
+//@   ensures !c.req.Working      // C12: a token taken for the command (Request.Read) has been returned to the limiter, whatever the outcome
 //@   ensures !ghostHandedOver[c.req] ==> cmem.DBRL.SetData.Count == old(cmem.DBRL.SetData.Count) && cmem.DBRL.SetData.Size == old(cmem.DBRL.SetData.Size)
